@@ -96,12 +96,12 @@ func (r *schemaRenderer) body(i int) []string {
 			es = append(es, r.node(c))
 		}
 		parts = append(parts, `"array": [`+strings.Join(es, ", ")+`]`)
-	case "concat":
+	case "concat", "coalesce", "upper":
 		var as []string
 		for _, c := range t.kids(i) {
 			as = append(as, r.node(c))
 		}
-		parts = append(parts, `"custom_func": {"name": "concat", "args": [`+strings.Join(as, ", ")+`]}`)
+		parts = append(parts, `"custom_func": {"name": "`+t.Kind[i-1]+`", "args": [`+strings.Join(as, ", ")+`]}`)
 	}
 	if t.Ty[i-1] != "none" {
 		parts = append(parts, `"type": `+jstr(t.Ty[i-1]))
